@@ -5,13 +5,14 @@ from .impl import P
 
 
 class FakeClock:
-    def __init__(self, ms):
+    def __init__(self, ms, sub_ns=0):
         self.ms = ms
+        self.sub_ns = sub_ns      # position inside the millisecond (0..999999 ns): the millisecond reading must not depend on it
 
     def __enter__(self):
         self.o_ns, self.o_t = _time.time_ns, _time.time
-        _time.time_ns = lambda: self.ms * 10**6
-        _time.time = lambda: self.ms / 1000.0
+        _time.time_ns = lambda: self.ms * 10**6 + self.sub_ns
+        _time.time = lambda: (self.ms * 10**6 + self.sub_ns) / 1e9
         return self
 
     def __exit__(self, *a):
@@ -28,7 +29,7 @@ def op_uptime(f):
     flags, frag, ts_prev, ts_now, ms = int(f[1]), int(f[2]), int(f[3]), int(f[4]), int(f[5])
     opts = p["Options"](min_timestamp_scale=int(f[6]) / int(f[7]), max_timestamp_scale=int(f[8]) / int(f[9]),
                         min_timestamp_wait=int(f[10]), max_timestamp_wait=int(f[11]), timestamp_grace=int(f[12]))
-    clock = FakeClock(1_700_000_000_000)
+    clock = FakeClock(1_700_000_000_000, int(f[13]) if len(f) > 13 and f[13] else 0)
     with clock:
         p0 = IP() / TCP(flags="A", seq=1, options=[("Timestamp", (ts_prev, 0))])
         last = p["TCPPacketSignature"].from_packet(p["parse_packet"](p0))
@@ -131,8 +132,18 @@ def op_impmtu(f):
     from scapy.layers.inet6 import IPv6
     ver = f[1]
     opts = [tok_to_opt(t) for t in f[2].split(",")] if f[2] else []
-    base = (IP(src="10.0.0.1", dst="10.0.0.2", ttl=61, id=77, tos=4) if ver == "4" else IPv6(src="::1", dst="::2", hlim=61, fl=5)) / TCP(
-        sport=1234, dport=80, flags="S", seq=99, window=1111, options=list(opts))
+    top = IP(src="10.0.0.1", dst="10.0.0.2", ttl=61, id=77, tos=4) if ver == "4" else IPv6(src="::1", dst="::2", hlim=61, fl=5)
+    wrap = f[4] if len(f) > 4 else ""
+    if "h" in wrap and ver == "6":
+        from scapy.layers.inet6 import IPv6ExtHdrHopByHop
+        top = top / IPv6ExtHdrHopByHop()
+    if "d" in wrap and ver == "6":
+        from scapy.layers.inet6 import IPv6ExtHdrDestOpt
+        top = top / IPv6ExtHdrDestOpt()
+    if "e" in wrap:
+        from scapy.layers.l2 import Ether
+        top = Ether() / top
+    base = top / TCP(sport=1234, dport=80, flags="S", seq=99, window=1111, options=list(opts))
     if len(bytes(base[TCP])) - 20 > 40 - (0 if any(o[0] == "MSS" for o in opts) else 4):
         return "SKIP options-do-not-fit"
     before = {k: v for k, v in base[TCP].fields.items() if k != "options"}
